@@ -493,7 +493,13 @@ func C03ContainersDeep() {
 			zzLE32(3), zzLE32(1), zzLE16(uint16(v.Grid[0][0])), zzLE32(0), zzLE32(2), zzLE16(uint16(v.Grid[2][0])), zzLE16(uint16(v.Grid[2][1])),
 			zzLE32(fb), zzLE32(2), []byte{v.Inner.T[0].A}, zzStr(v.Inner.T[0].B), []byte{v.Inner.T[1].A}, zzStr(v.Inner.T[1].B))
 		var back zzDeep
-		zzCheck("deep-struct", "([s][[w]](f[(Cs)]))", v, spec, &back, func() bool {
+		// a float32 MEMBER goes through reflect's float64 accessors; for a signalling NaN that is not
+		// the identity (the hardware sets the quiet bit): that input class has a label of its own
+		name := "deep-struct"
+		if sym.And(fb&0x7f800000 == 0x7f800000, sym.And(fb&0x007fffff != 0, fb&0x00400000 == 0)) {
+			name = "deep-struct[float32-member-is-a-signalling-NaN]"
+		}
+		zzCheck(name, "([s][[w]](f[(Cs)]))", v, spec, &back, func() bool {
 			if !(len(back.Names) == 3 && len(back.Grid) == 3 && len(back.Grid[0]) == 1 && len(back.Grid[1]) == 0 && len(back.Grid[2]) == 2 && len(back.Inner.T) == 2) {
 				return false
 			}
